@@ -70,7 +70,7 @@ impl AsyncWrite for ScriptWriter {
 }
 
 fn read_all(mode: FrameMode, data: &[u8], script: Vec<Ans>) -> (Vec<Vec<u8>>, Option<std::io::ErrorKind>, bool) {
-    let de = MessageDeframer::new(mode);
+    #[allow(unused_mut)] let mut de = MessageDeframer::new(mode);
     let mut rd = ScriptReader { data: data.to_vec(), pos: 0, script, step: 0, polls: 0 };
     let mut frames = vec![];
     loop {
@@ -110,9 +110,10 @@ pub fn run(rep: &Report) -> serde_json::Value {
     let mut seqs: Vec<Vec<usize>> = vec![vec![]];
     for a in lens { seqs.push(vec![a]); for b in lens { seqs.push(vec![a, b]); for c in lens { seqs.push(vec![a, b, c]); } } }
     for (mode, prefix) in [(FrameMode::Handshake, 2usize), (FrameMode::Distribution, 4usize)] {
-        let framer = MessageFramer::new(mode);
         let cases: Vec<&Vec<usize>> = seqs.iter().filter(|s| s.iter().map(|l| l + prefix).sum::<usize>() <= max_stream).collect();
         cases.par_iter().for_each(|lens| {
+            // one framer per message sequence (it may keep state between messages)
+            #[allow(unused_mut)] let mut framer = MessageFramer::new(mode);
             let msgs: Vec<Vec<u8>> = lens.iter().enumerate().map(|(i, &l)| (0..l).map(|j| (i * 16 + j + 1) as u8).collect()).collect();
             let mut stream = vec![];
             for m in &msgs {
@@ -169,9 +170,37 @@ pub fn run(rep: &Report) -> serde_json::Value {
             }
         });
     }
+    // sequences through ONE streaming writer in which a large message is followed by others: every size around the
+    // 16-bit boundary (and 1 MiB) x every follower size, two followers each
+    {
+        let bigs: Vec<(FrameMode, usize, Vec<usize>)> = vec![(FrameMode::Handshake, 2, vec![255, 256, 4096, 65_535]), (FrameMode::Distribution, 4, vec![255, 256, 4096, 65_535, 65_536, 65_537, 70_000, 1 << 20])];
+        for (mode, prefix, sizes) in bigs {
+            for &big in &sizes {
+                for &f1 in &[0usize, 1, 3, 300, 65_535] {
+                    for &f2 in &[0usize, 2, 65_535] {
+                        rep.add("evaluations", 1);
+                        #[allow(unused_mut)] let mut framer = MessageFramer::new(mode);
+                        let msgs: Vec<Vec<u8>> = [big, f1, f2, big].iter().enumerate().map(|(i, &l)| (0..l).map(|j| ((i * 31 + j) % 253 + 1) as u8).collect()).collect();
+                        let mut w = ScriptWriter { out: vec![], script: vec![], step: 0, flushed: 0 };
+                        let mut want = vec![];
+                        let mut all_ok = true;
+                        for m in &msgs {
+                            want.extend_from_slice(&frame(m, prefix));
+                            let r = { let fut = framer.write_framed(&mut w, m); let mut fut = std::pin::pin!(fut); drive(fut.as_mut()) };
+                            all_ok &= matches!(r, Some(Ok(())));
+                        }
+                        if !all_ok || w.out != want {
+                            let first_diff = w.out.iter().zip(want.iter()).position(|(a, b)| a != b).unwrap_or(w.out.len().min(want.len()));
+                            rep.violation("a sequence of messages through one streaming writer differs from the one-shot frames", json!({"mode": format!("{:?}", mode), "message_sizes": [big, f1, f2, big], "written_bytes": w.out.len(), "expected_bytes": want.len(), "first_difference_at": first_diff}));
+                        }
+                    }
+                }
+            }
+        }
+    }
     // single larger messages and the cap
     for (mode, prefix, sizes) in [(FrameMode::Handshake, 2usize, vec![255usize, 256, 65535]), (FrameMode::Distribution, 4usize, vec![255, 256, 65535, 65536, 1 << 20])] {
-        let framer = MessageFramer::new(mode);
+        #[allow(unused_mut)] let mut framer = MessageFramer::new(mode);
         for sz in sizes {
             rep.add("evaluations", 1);
             let m: Vec<u8> = (0..sz).map(|i| (i % 251) as u8).collect();
